@@ -631,7 +631,7 @@ struct SrvEngine : public Engine
          {
             String np0 = MS(p); PathMatcher tmp; tmp.AdjustStringPrefix(np0, "*/*");
             for (std::map<std::string, Sub>::const_iterator it = c.subs.begin(); it != c.subs.end(); ++it)
-               if (it->first != S(pn)) {String np1 = MS(it->second.pattern); tmp.AdjustStringPrefix(np1, "*/*"); if (np1 == np0) c.dupSpelling = true;}
+               if (it->first != S(pn)) {String np1 = MS(it->second.pattern); tmp.AdjustStringPrefix(np1, "*/*"); if (np1 == np0) {c.subs.erase(it->first); break;}}   // one subscription per path: the latest spelling replaces an older one (F10, repaired)
          }
          Sub s; s.pattern = p; s.filter = t[4]; c.subs[S(pn)] = s;
          if (f()) c.usedFilter = true;
